@@ -23,7 +23,8 @@
       the flag of `def_cell_format` — is false; number formats are looked up by id in a map that holds the
       built-ins overridden by the `<numFmt>` elements in document order (the last one with an id wins); an id
       that is neither leaves the style without number format; font / fill / border ids are unwrapped (panic);
-      alignment / protection: the xf's own child, else `def_cell_format`'s;
+      alignment / protection: the xf's own child, nothing when it has none (fix: before, `def_cell_format`'s —
+      the alignment of `cellStyleXfs[0]` — was taken for an xf without the child);
     * a cell without `s` keeps `Style::default()`; `get_style(i)` unwraps `maked_style_list.get(i)`.
 
   Conventions as in `Umya.Model.Reader`: the model reads the element tree of `Umya.Spec.Xml` (start/end-tag and
@@ -123,7 +124,8 @@ def flagOf (d x : Option Bool) : Option Bool :=
   | some b => some b
   | none => d
 
-/-- `if let Some(v) = def.get_x() { set(v) } if let Some(v) = xf.get_x() { set(v) }`: the xf's own, else the default's -/
+/-- before the fix: `if let Some(v) = def.get_x() { set(v) } if let Some(v) = xf.get_x() { set(v) }`: the xf's own,
+    else the default's -/
 def orOf {α : Type} (x d : Option α) : Option α :=
   match x with
   | some a => some a
@@ -136,12 +138,17 @@ def resolveXf (t : StyleTables) (d x : XfR) : Option StyleR :=
         Umya.Style.pick (flagOf d.applyBorder x.applyBorder) t.borders x.borderId with
   | some fo, some fi, some bo =>
     some { font := fo, fill := fi, borders := bo,
-           alignment := if (flagOf d.applyAlignment x.applyAlignment).getD true then
-                          orOf x.alignment d.alignment else none,
+           alignment := if (flagOf d.applyAlignment x.applyAlignment).getD true then x.alignment else none,
            numFmt := if (flagOf d.applyNumFmt x.applyNumFmt).getD true then nfLookup t.numFmts x.numFmtId else none,
-           protection := if (flagOf d.applyProtection x.applyProtection).getD true then
-                           orOf x.protection d.protection else none }
+           protection := if (flagOf d.applyProtection x.applyProtection).getD true then x.protection else none }
   | _, _, _ => none
+
+/-- `get_style_by_cell_format` before the fix: an xf without `<alignment>` / `<protection>` took `def_cell_format`'s -/
+def resolveXfOld (t : StyleTables) (d x : XfR) : Option StyleR :=
+  (resolveXf t d x).map fun s =>
+    { s with
+      alignment := if (flagOf d.applyAlignment x.applyAlignment).getD true then orOf x.alignment d.alignment else none,
+      protection := if (flagOf d.applyProtection x.applyProtection).getD true then orOf x.protection d.protection else none }
 
 /-- `Stylesheet::make_style`: `format_id` is 0 for every xf (the reader does not read `xfId`) -/
 def makeStyles (t : StyleTables) : Option (List StyleR) :=
